@@ -268,7 +268,52 @@ def translate_kv(ctx):
                          "GenUpdateFile.v", "GenUpdateFileProofs.v", "writer.update_file_custom_metadata")
 
 
+def mark(ctx, stage, case):
+    """the case the real code is about to execute (read back by the parent when the interpreter dies: wave 7)"""
+    try:
+        with open(os.path.join(ctx.scratch, "progress.json"), "w") as f:
+            json.dump(dict(case, progress_stage=stage), f, default=repr)
+    except Exception:       # noqa
+        pass
+
+
 def run(ctx):
+    """the check runs in a forked child: fastparquet is executed in-process, and a change that makes the native code crash would
+    otherwise end the check without a verdict.  Child exits normally -> its verdict is the verdict; child dies -> the case it was
+    executing is the failing input."""
+    import sys
+    import traceback
+    sys.stdout.flush()
+    sys.stderr.flush()
+    pid = os.fork()
+    if pid == 0:
+        rc = 1
+        try:
+            try:
+                _run(ctx)
+            except Exception:       # noqa
+                tb = traceback.format_exc()
+                print(tb, file=sys.stderr)
+                ctx.broken.append({"kind": "harness-error", "name": "C16 check machinery", "detail": tb[-3000:]})
+            rc = ctx.finish()
+        finally:
+            sys.stdout.flush()
+            sys.stderr.flush()
+            os._exit(rc if isinstance(rc, int) else 1)
+    _, status = os.waitpid(pid, 0)
+    if os.WIFEXITED(status):
+        os._exit(os.WEXITSTATUS(status))
+    sig = os.WTERMSIG(status)
+    try:
+        case = json.load(open(os.path.join(ctx.scratch, "progress.json")))
+    except Exception:       # noqa
+        case = {"progress_stage": "unknown"}
+    ctx.trusted = TRUSTED
+    ctx.fail({"component": "crash", "op": case.get("progress_stage"), "signal": sig}, case,
+             "the interpreter died with signal %d while the real code executed this case" % sig)
+
+
+def _run(ctx):
     C.coq_lib()
     ctx.trusted = TRUSTED
     ok, out = ctx.coq_file(os.path.join(C.COQ, "props", "C16.v"))
@@ -352,6 +397,8 @@ def run(ctx):
         u = {}
         fmd = parquet_thrift.FileMetaData(
             key_value_metadata=[parquet_thrift.KeyValue(key=k, value=v) for k, v in old] if (old or rng.random() < 0.5) else None)
+        mark(ctx, "update_custom_metadata (direct calls on one object)",
+             {"old": [[k.hex(), v.hex()] for k, v in old], "update": [], "updates_typed": [enc_dict(uj) for uj in us]})
         raised = None
         try:
             for uj in us:
@@ -448,6 +495,7 @@ def run(ctx):
                 case["replay_data"]["lattice"] = lat[1]
             trivial_hist = True
             for step in range(nupd):
+                mark(ctx, "history step %d" % step, case)
                 before = open(path, "rb").read()
                 keys_now = [k for k in cur if k != b"pandas" and k != DUPKEY]
                 raw_before = kv_of(ParquetFile(path).fmd)
@@ -574,6 +622,7 @@ def run(ctx):
                 ctx.count("file_kind", kind)
                 case["updates"].append([[repr(k), None if v is None else len(v)] for k, v in u.items()] + [{"footer_delta": delta}])
                 case["replay_data"]["updates"].append(enc_dict(u))
+                mark(ctx, "history step %d: update_file_custom_metadata" % step, case)
                 err = None
                 try:
                     update_file_custom_metadata(path, dict(u))
@@ -643,7 +692,7 @@ def run(ctx):
                      "a legal history raised %s: %s\n%s" % (type(e).__name__, e, traceback.format_exc()[-1200:]))
     # ---- histories on ONE HANDLE: two or more update_custom_metadata(pf, ...) calls with no footer write in between, then the handle
     # writes its metadata (_write_common_metadata, or an append through the handle); later dicts name keys the earlier ones added ----
-    n_hs = 24 if ctx.quick() else 240
+    n_hs = 40 if ctx.quick() else 400
     for h in range(n_hs):
         case = {"handle_history": h}
         try:
@@ -675,9 +724,19 @@ def run(ctx):
             finish = rng.choice(["_write_common_metadata", "append"])
             case = {"stage": "handle-history", "nrows": nrows, "initial": enc_dict(d0), "updates": [enc_dict(u) for u in us], "finish": finish,
                     "shown": [[[repr(k), None if v is None else repr(v)[:30]] for k, v in u.items()] for u in us]}
+            if h % 2:
+                # two related handles: which one each update goes through, which one writes
+                case["twin"] = rng.choice(["slice", "copy", "deepcopy", "pickle"])
+                case["who"] = [rng.randrange(2) for _ in us]
+                case["writer"] = rng.choice([1 - case["who"][-1], 1 - case["who"][-1], rng.randrange(2)])
             ctx.case(case)
             ctx.count("handle_history.finish", finish)
-            problems = handle_history(root, df, us, finish)
+            ctx.count("handle_history.twin", case.get("twin"))
+            mark(ctx, "handle-history", case)
+            if case.get("twin"):
+                problems = twin_history(root, df, us, case["who"], finish, case["twin"], case["writer"])
+            else:
+                problems = handle_history(root, df, us, finish)
             if problems:
                 ctx.fail({"component": "update_custom_metadata(handle)", "op": "sequence-on-one-handle", "finish": finish}, case, "; ".join(problems))
         except Exception as e:      # noqa
@@ -690,6 +749,7 @@ def run(ctx):
         spec = gen_append_history(rng)
         ctx.case(spec)
         ctx.count("append_history.ops", "+".join(st["op"] for st in spec["steps"]))
+        mark(ctx, "append-history", spec)
         root = os.path.join(ctx.scratch, "ah%d" % h)
         try:
             problems = run_append_history(root, spec)
@@ -719,6 +779,43 @@ def strict_view_ok(pf, raw):
     except Exception as e:      # noqa
         print("reading key_value_metadata raised %s: %s" % (type(e).__name__, e))
         return False
+
+
+def twin_history(root, df, us, who, finish, twin, writer):
+    """TWO related handles (wave 7): the handle opened from disk and a twin derived from it (slice of all row groups, copy.copy,
+    copy.deepcopy, pickle round trip).  Update k goes through handle who[k]; each handle must hold exactly the updates applied to IT;
+    then handle `writer` writes the footer: the key-values on disk are the writer's.  -> list of problems"""
+    import copy
+    import pickle
+    from fastparquet import ParquetFile
+    from fastparquet.util import update_custom_metadata
+    pf = ParquetFile(root)
+    tw = {"slice": lambda: pf[:len(pf.row_groups)], "copy": lambda: copy.copy(pf), "deepcopy": lambda: copy.deepcopy(pf),
+          "pickle": lambda: pickle.loads(pickle.dumps(pf))}[twin]()
+    hs = [pf, tw]
+    names = ["the opened handle", "its %s twin" % twin]
+    want = [dict(kv_of(pf.fmd)), dict(kv_of(pf.fmd))]
+    problems = []
+    for i, (u, w) in enumerate(zip(us, who)):
+        update_custom_metadata(hs[w], dict(u))
+        want[w] = spec_update(want[w], u)
+        for j in (0, 1):
+            got = dict(kv_of(hs[j].fmd))
+            seen = {eb(k): (None if v is None else eb(v)) for k, v in hs[j].key_value_metadata.items()}
+            if got != want[j] or seen != want[j]:
+                problems.append("after update %d (through %s) %s holds %r and shows %r, expected %r" % (
+                    i, names[w], names[j], _trim(got), _trim(seen), _trim(want[j])))
+                return problems
+    if finish == "append":
+        hs[writer].write_row_groups(df)
+    else:
+        hs[writer]._write_common_metadata()
+    pf2 = ParquetFile(root)
+    got = {k: v for k, v in kv_of(pf2.fmd) if k != b"pandas"}
+    if got != {k: v for k, v in want[writer].items() if k != b"pandas"}:
+        problems.append("the footer written by %s (%s) holds %r, expected its own entries %r" % (
+            names[writer], finish, _trim_list(kv_of(pf2.fmd)), _trim(want[writer])))
+    return problems
 
 
 def handle_history(root, df, us, finish):
@@ -926,7 +1023,11 @@ def replay(rep):
             root = os.path.join(tmp, "ds")
             write(root, df, file_scheme="hive", custom_metadata=dec_dict(c["initial"]) or None, row_group_offsets=[0, nrows // 2])
             try:
-                problems = handle_history(root, df, [dec_dict(u) for u in c["updates"]], c["finish"])
+                if c.get("twin"):
+                    problems = twin_history(root, df, [dec_dict(u) for u in c["updates"]], c["who"], c["finish"], c["twin"], c["writer"])
+                    print("twin %s, updates through %r, footer written by handle %d" % (c["twin"], c["who"], c["writer"]))
+                else:
+                    problems = handle_history(root, df, [dec_dict(u) for u in c["updates"]], c["finish"])
             except Exception as e:      # noqa
                 problems = ["raised %s: %s" % (type(e).__name__, e)]
             print("updates on one handle: %r, then %s" % (c["shown"], c["finish"]))
